@@ -10,17 +10,20 @@ from vlib.model import Z64, p64, scan_universe, u64
 
 PROPERTY = 'C20'
 LEVEL = 'exploration'
-TECH = 'stateful PBT: generated allocation/store/restore/copy/pack/reopen/push/pop/import programs; invariant id not in issued+present'
+TECH = ('stateful PBT: generated allocation/store/restore/copy/pack/reopen/push/pop/import programs; invariant id not in issued+present; '
+        'generated allocator threads x generated schedules under a deterministic scheduler')
 RULE = ('cases = generated programs over FileStorage, MappingStorage and DemoStorage (over mapping/file bases, with '
         'push/pop and an adversarial small-integer random stream): new_oid, stores/restores/copies of records with '
         'arbitrary ids, aborts, packs, close/reopen, DB-level adds inside savepoints and importFile; oracle after '
         'EVERY allocation: id not in the set issued since the storage was opened and not the id of any record present '
         '(as listed by the storage iterator of every layer); evaluations = allocations checked; non-trivial = '
         'allocation following a store/restore/copy of an id above the previous high-water mark, a reopen, or a demo '
-        'stack change; distinct by (program hash, allocation index)')
+        'stack change; a quarter of the cases are THREAD cases: 2-4 allocator threads (new_oid, add+commit) on file, mapping '
+        'and demo storages under vlib/sched.py with every line of new_oid a yield point; oracle: no id issued twice; '
+        'distinct by (program hash, allocation index)')
 ASSUMPTIONS = ['after close+reopen ids issued earlier but never stored (or packed away) may be issued again (the '
                'statement quantifies over "while a storage is open" and over what is stored)',
-               'thread schedules of concurrent allocators are not explored by this check (sequential programs only)']
+               'thread cases: preemption at lock operations, file operations and the lines of the storages\' new_oid only; schedules are sampled']
 BUDGET = {'quick': {'examples': 5000, 'workers': 8},
           'thorough': {'examples': 25000, 'workers': 16}}
 
@@ -436,4 +439,4 @@ LEVEL_TEXT = ('Generated programs interleave allocation with every way ids can e
               'arbitrary ids, demo layers, push/pop, reopen, pack, DB adds inside savepoints, importFile); the invariant '
               'is checked against the harness\'s own issued-set and the storage iterators after every allocation.')
 LEVEL_NOTE = ('Trusted: storage iterators as the listing of present records. DemoStorage randomness replaced by a generated '
-              'small-integer stream. Concurrent allocators (schedules) are not covered here.')
+              'small-integer stream. Concurrent allocators: sampled schedules under vlib/sched.py (trusted).')
